@@ -135,6 +135,71 @@ def run_for_property(pid, ck, seed):
         s["preserving_tried"], s["skipped"]))
 
 
+def _one_patch(job):
+    """apply a stored patch (seeded breaking change / preserving change) to a scratch copy of the working tree and run one property's check"""
+    name, kind, patch, pid = job
+    import subprocess
+    sys.path.insert(0, HERE)
+    scratch = tempfile.mkdtemp(prefix="lcsa_corpus_")
+    try:
+        shutil.copytree(os.path.join(REPO, "localcider"), os.path.join(scratch, "localcider"), ignore=shutil.ignore_patterns("__pycache__", "*.pyc"))
+        for extra in ("webpage.MD",):
+            if os.path.exists(os.path.join(REPO, extra)):
+                shutil.copy(os.path.join(REPO, extra), os.path.join(scratch, extra))
+        r = subprocess.run("patch --binary -s -p1 < %s" % patch, cwd=scratch, shell=True, capture_output=True, text=True)
+        if r.returncode != 0:
+            return {"name": name, "kind": kind, "status": "skipped", "why": "patch does not apply to the working tree"}
+        import importlib
+        chk = importlib.machinery.SourceFileLoader("lcsa_check_main", os.path.join(HERE, "check")).load_module()
+        buf = io.StringIO()
+        with contextlib.redirect_stdout(buf):
+            rc, ck = chk.run_property(pid, "quick", scratch, 0, evidence_dir=os.path.join(scratch, "_ev"), quiet=True)
+        if kind == "seeded":
+            status = "reported" if rc == 1 else ("undecided" if rc == 2 else "SILENT")
+        else:
+            status = "silent" if rc == 0 else ("undecided" if rc == 2 else "FALSE-ALARM")
+        fresh = ck.fresh_violations() if hasattr(ck, "fresh_violations") else ck.violations
+        return {"name": name, "kind": kind, "status": status, "rule": (fresh[0]["rule"] + " @ " + fresh[0]["construct"].split(":")[-1]) if fresh else ""}
+    finally:
+        shutil.rmtree(scratch, ignore_errors=True)
+
+
+def run_corpora(pid, ck, workers=16):
+    """thorough tier: this property's check against (a) the sub-agent written breaking changes filed under the property and (b) every
+    behaviour-preserving change (refactorings, correct optimisations, repaired twins).  Recorded in the evidence; never touches the exit code."""
+    import json
+    jobs = []
+    sroot = os.path.join(HERE, "seeded")
+    for n in sorted(os.listdir(sroot)) if os.path.isdir(sroot) else []:
+        pf, mf = os.path.join(sroot, n, "patch.diff"), os.path.join(sroot, n, "meta.json")
+        if os.path.isfile(pf) and os.path.isfile(mf) and json.load(open(mf)).get("property") == pid:
+            jobs.append((n, "seeded", pf, pid))
+    proot = os.path.join(HERE, "preserving")
+    for n in sorted(os.listdir(proot)) if os.path.isdir(proot) else []:
+        pf = os.path.join(proot, n, "patch.diff")
+        if os.path.isfile(pf):
+            jobs.append((n, "preserving", pf, pid))
+    if not jobs:
+        return
+    with multiprocessing.Pool(min(workers, len(jobs))) as pool:
+        res = pool.map(_one_patch, jobs, chunksize=1)
+    sd = [r for r in res if r["kind"] == "seeded"]
+    pr = [r for r in res if r["kind"] == "preserving"]
+    summ = {"seeded_tried": sum(r["status"] != "skipped" for r in sd), "seeded_reported": sum(r["status"] == "reported" for r in sd),
+            "seeded_undecided": sum(r["status"] == "undecided" for r in sd), "seeded_silent": [r["name"] for r in sd if r["status"] == "SILENT"],
+            "preserving_tried": sum(r["status"] != "skipped" for r in pr), "preserving_silent": sum(r["status"] == "silent" for r in pr),
+            "preserving_undecided": sum(r["status"] == "undecided" for r in pr), "false_alarms": [r["name"] for r in pr if r["status"] == "FALSE-ALARM"],
+            "skipped": sum(r["status"] == "skipped" for r in res),
+            "seeded_detail": {r["name"]: (r["status"] + (": " + r["rule"] if r.get("rule") else "")) for r in sd}}
+    ck.extra["corpora"] = summ
+    for r in res:
+        if r["status"] in ("FALSE-ALARM",):
+            print("CORPUS-FALSE-ALARM property=%s change=%s" % (pid, r["name"]))
+    print("%s CORPORA seeded: %d/%d reported, %d undecided, silent=%s | preserving: %d/%d silent, %d undecided, false alarms=%s" % (
+        pid, summ["seeded_reported"], summ["seeded_tried"], summ["seeded_undecided"], summ["seeded_silent"], summ["preserving_silent"], summ["preserving_tried"],
+        summ["preserving_undecided"], summ["false_alarms"]))
+
+
 def main(pid, seed):
     res = run({pid} if pid else None, seed)
     bad = 0
